@@ -61,7 +61,7 @@ inductive GStep : G → G → Prop
       GStep s { s with sub := updS s.sub t .rlocked, log := s.log ++ [.subBeg t] }
   | reject (s : G) (t : Nat) : s.sub t = .rlocked →      -- stopping/stopped/paused, or no free slot
       GStep s { s with sub := updS s.sub t .rejected, log := s.log ++ [.rej t] }
-  | admit (s : G) (t : Nat) : s.sub t = .rlocked → s.stopping = false → s.stopped = false →
+  | acquire (s : G) (t : Nat) : s.sub t = .rlocked → s.stopping = false → s.stopped = false →
       GStep s { s with sub := updS s.sub t .slot, log := s.log ++ [.adm t] }
   | runlock (s : G) (t : Nat) : s.sub t = .slot →
       GStep s { s with sub := updS s.sub t .admitted }
